@@ -775,6 +775,21 @@ class Evaluator:
         if isinstance(obj, self.ext.NdArr):
             self.ext.nd_setitem(self, obj, idx, v, fr, node)
             return
+        if isinstance(obj, OpaqueV) and obj.what == "recbuf" and isinstance(idx, StrV):
+            buf = obj.payload
+            if buf["names"] and idx.s not in buf["names"]:
+                raise Raised("ValueError", node, f"no field of name {idx.s}")
+            vs = tuple(v.shape) if isinstance(v, Num) and v.shape else ()
+            ts = tuple(buf["shape"])
+            ok = len(vs) <= len(ts)
+            if ok:
+                for a_, b_ in zip(reversed(vs), reversed(ts)):
+                    if a_ != 1 and a_ != b_:
+                        ok = False
+            if not ok:
+                raise Raised("ValueError", node, f"could not broadcast input array from shape {vs} into shape {ts}")
+            buf["fields"][idx.s] = v
+            return
         self.unsupported(f"subscript store on {obj!r}", node, fr)
 
     def key(self, v):
@@ -1210,6 +1225,10 @@ class Evaluator:
                 d = DictV()
                 d.d = obj.attrs          # live view: pop / item stores act on the instance
                 return d
+            if name == "view" and "_recbuf" in obj.attrs:
+                buf = obj.attrs["_recbuf"]
+                return PyFuncV(lambda ev, a, k, fr, node: buf if (a and isinstance(a[0], ExtV) and a[0].dotted == "numpy.ndarray")
+                               else ev.unsupported("view of a record-array object as another class", node, fr), "recview.view")
             return self.class_attr(obj.cls, name, obj, fr, node)
         if isinstance(obj, ClassV):
             if name == "__name__":
